@@ -118,11 +118,16 @@ CHECKS['C06'] = dict(
 CHECKS['C07'] = dict(
     title='Output is the original line, framed and exit-coded as documented',
     rule='(library) lines over an alphabet with blanks/delimiters x --with-nth range lists x AWK/literal/regex delimiters x --print-query x six ways of running the filter; '
-         'oracle = field model for the searched text, original line for the printed text, exit status 0/1; non-trivial = the display text differs from the line and something is printed',
-    assumptions=[],
+         '(process, filter mode) byte-exact stdout for records with leading/trailing blanks, empty and multi-line records, non-ASCII, SGR sequences x --read0/--print0/--ansi/--print-query/--with-nth/--tac/--sync; '
+         '(process, interactive) selection histories ending in accept / abort / print-query / an --expect key, with --print0/--print-query/--expect/--accept-nth/--multi: stdout = query line, key line, then the selection in selection order (or the current line), exit status 0/1/130; '
+         '--select-1/--exit-0 automatic exits. non-trivial = the searched text differs from the record or >= 2 framing options are combined and something is printed',
+    assumptions=['with --ansi --with-nth only the printed records are asserted for non-empty queries (colour state carried across fields changes the searched text)'],
     units=[
         U('lib', 'TestVerifC0607_Regress', q(), q()),
         U('lib', 'TestVerifC07_LibOriginalLine', q(9600, 16), q(192000, 16, cap=1800)),
+        U('proc', 'TestVerifC07_ProcFilter', q(4800, 16, cap=600), q(96000, 16, cap=2400), needs_fzf=True),
+        U('proc', 'TestVerifC07_ProcInteractive', q(480, 16, cap=900), q(8000, 16, cap=3000), needs_fzf=True),
+        U('proc', 'TestVerifC07_ProcSelect1Exit0', q(160, 8, cap=600), q(1600, 16, cap=2400), needs_fzf=True),
     ])
 
 CHECKS['C10'] = dict(
@@ -255,4 +260,15 @@ CHECKS['C09'] = dict(
                  'next-selected/prev-selected, jump and exclude are not part of this alphabet'],
     units=[
         U('proc', 'TestVerifC09_Sessions', q(960, 16, cap=900), q(16000, 16, cap=3000), needs_fzf=True),
+    ])
+
+CHECKS['C14'] = dict(
+    title='The UI never crashes or hangs and always leaves terminal and system clean',
+    rule='live sessions (tmux): items with wide/combining/control/invalid characters, empty, 100k-character and multi-line records x layout/border/margin/padding/height/info/header/preview/preview-window/wrap/gap/misc options x windows from 1x1 to 220x70 '
+         'x histories of 3-25 steps (every bindable action without argument scraped from the option parser, 50 actions with arguments, raw key bytes incl. truncated escape sequences, SGR/X10 mouse reports inside and outside the window, bracketed paste, invalid UTF-8, resizes) '
+         'x exit by accept / abort / SIGTERM / SIGINT, also while a preview or reload command is running. Oracle: fzf keeps answering after every step, no panic, exit status in {0,1,130}, stty settings restored, every private terminal mode switched on is switched off, '
+         'no alternate screen / mouse mode left, TMPDIR empty, no child process alive. non-trivial = a window narrower than 20 columns or shorter than 6 rows at some point, or a child command alive at exit',
+    assumptions=['tmux 3.3a is the terminal; liveness is judged by GET answering within 30 s'],
+    units=[
+        U('proc', 'TestVerifC14_Sessions', q(320, 16, cap=900), q(6400, 16, cap=3000), needs_fzf=True),
     ])
